@@ -78,6 +78,8 @@ def run(facts, rep, tier, ctx):
         if not w_.present():
             continue
         h = Handles(facts, asyncw, D)
+        # an open+read is one observation of the file: the read handle works on a private snapshot (no lock, no map access)
+        h.handle_surface_rules(rep, ("A/" if asyncw else "") + "R16.7")
         scratch = Report("x")
         h.writer_rules(scratch, "P", "x", "y")
         k = 0
@@ -103,6 +105,13 @@ def run(facts, rep, tier, ctx):
             if "the stored entry is not modified" in d or "write handle was built" in d:
                 k += 1
                 rep.ob(("A/" if asyncw else "") + "R16.6", o["fn"], d, o["ok"], o["detail"], o["loc"])
+        # what each critical section establishes before it mutates (Table M): a sequential execution refuses a create below
+        # a missing parent, so must the operation inside its single region
+        scratch = Report("t")
+        c01.table_m(facts, scratch, "M", "Mk", self_ty=w_.memory, trait=w_.trait.rsplit("::", 1)[1])
+        for o in scratch.obligations:
+            if o["rule"] == "M":
+                rep.ob(("A/" if asyncw else "") + "R16.8", o["fn"], o["key"].split("|")[2], o["ok"], o["detail"], o["loc"])
         rep.floor("hand-out obligations (%s)" % w_.tag, k, 3)
     rep.assume("every access to the map goes through a guard (enforced by the type system: the map lives inside the RwLock)")
     rep.assume("per-call linearizability only: compositions in the path layer (get_parent + create_dir) are separate calls by design")
